@@ -5,6 +5,7 @@ use super::asyncp::*;
 use super::cachesnap::*;
 use super::containers::*;
 use super::deep::C04Deep;
+use super::heavy::C14Heavy;
 use super::ffi::C17;
 use super::more::*;
 use super::solve::*;
@@ -62,6 +63,16 @@ fn st_x(prop: impl Property + 'static, quick: u64, thorough_scale: u64, profile:
         thorough_cases: quick * QUICK_SCALE * thorough_scale,
         profile,
     }
+}
+
+/// Stages that take part in the coverage-guided campaigns of the thorough tier: in-process,
+/// and cheap per input (the constructed big stages cost up to seconds per case).
+pub fn fuzzable(s: &Stage) -> bool {
+    s.profile == Profile::Release
+        && ![
+            "wide", "huge", "wide-root", "expensive-soft", "long", "bulk", "bulk-fat", "deep-chain", "exhaustive", "all-indices", "asan",
+        ]
+        .contains(&s.prop.stage())
 }
 
 pub fn level_of(id: &str) -> &'static str {
@@ -138,6 +149,7 @@ pub fn stages(id: &str) -> Vec<Stage> {
         "C14" => vec![
             st(C14 { params: Params::conflict_heavy().with_soft(5, 200), stage: "general", conflict_free: false }, 15_000, 600_000, Release),
             st(C14 { params: Params::default(), stage: "conflict-free", conflict_free: true }, 15_000, 600_000, Release),
+            st(C14Heavy { stage: "expensive-soft", max_holes: 9 }, 8, 160, Release),
         ],
         "C15" => vec![
             st_x(C15 { stage: "small", max_n: 33, all_pairs_upto: 33, sample_pairs: 0, extended: false, overlap: false }, 300, 128, Release),
